@@ -691,7 +691,7 @@ pub fn configs_c14(tier: crate::registry::Tier, _seed: u64) -> Vec<crate::regist
     use crate::registry::{entry, Tier};
     let th = tier == Tier::Thorough;
     let mut v = Vec::new();
-    v.push(entry(Scalars { kind: ScalarKind::RatioRing, b: Some(if th { 6 } else { 2 }) }, if th { 20000 } else { 1500 }, if th { 3000.0 } else { 150.0 }));
+    v.push(entry(Scalars { kind: ScalarKind::RatioRing, b: Some(if th { 6 } else { 3 }) }, if th { 20000 } else { 3000 }, if th { 3000.0 } else { 200.0 }));
     v.push(entry(Scalars { kind: ScalarKind::RatioOrder, b: Some(if th { 8 } else { 4 }) }, if th { 20000 } else { 1500 }, if th { 3000.0 } else { 200.0 }));
     for d in [-1, -3, 2, 5, -2] {
         v.push(entry(Scalars { kind: ScalarKind::Quad(d), b: Some(1000) }, 3000, 120.0));
